@@ -180,3 +180,19 @@ CHECKS["C20"] = {
         {"name": "supervisor", "pkg": "pkg/supervisor", "test": "TestVerifC20"},
     ],
 }
+
+CHECKS["C06"] = {
+    "level": "exploration",
+    "technique": "bounded exhaustive enumeration (choice-tree DFS) of accepted base requests x single mutations on the real Validator filter, credentials issued by an independent implementation",
+    "level_text": "for JWT (3 algorithms x 2 secrets x 4 claim sets x header/cookie), API signature (2 methods x 3 paths incl. escaped/non-ASCII x 4 queries x 3 body sizes x scopes x header/presign style x ttl), "
+                  "Basic (2 users x 5 passwords incl. ':' / non-ASCII / empty x bcrypt/SHA) and header rules (alone and combined with JWT): every base request built by an independent issuer must be accepted, "
+                  "and every single mutation of a covered part (token/signature bytes, algorithm, secret, method, path, query, signed header, body, key id, password, age) must be rejected with invalid + 401/400; "
+                  "requests are given to the filter exactly as the HTTP server does (body already read by FetchPayload)",
+    "level_note": "finite menus; OAuth2 token introspection (needs a remote endpoint) and ETCD basic-auth mode are not covered; wall-clock based ttl/exp checks use margins of >= 1 s .. 1 h",
+    "rule": "choice tree: configuration, base-request dimensions, mutation index (0 = none); distinct_nontrivial = distinct (method, accepted variant | rejected mutation) classes",
+    "bounds": {"quick": "full product of the menus x all single mutations", "thorough": "same"},
+    "assumptions": ["issuer implements the documented schemes independently (RFC 7519 HS*, AWS SigV4 with ME literals, RFC 7617)"],
+    "units": [
+        {"name": "validator", "pkg": "pkg/filters/validator", "test": "TestVerifC06", "workers": 4},
+    ],
+}
